@@ -270,7 +270,22 @@ fn check_set<TC: ModelCfg>(rep: &Report, fam: &str, set: &[Bits]) {
         let mut mrs = mr.clone();
         mrs.sort();
         let ctx = || json!({"family": fam, "set": set.iter().map(|s| s.show()).collect::<Vec<_>>(), "prefix": prefix.show(), "natural_repr_sorted_searchable": nat.binary_searchable});
-        for (name, r) in [("natural", &nat), ("forced_unsorted", &uns), ("reversed_input", &rev_nat)] {
+        // small mixed-length sets: every input order, in both representations
+        let mut extra: Vec<(String, akd::append_only_zks::verif_hooks::SetOps)> = vec![];
+        if fam == "mixed_lengths" && (3..=4).contains(&elems.len()) {
+            let idx: Vec<usize> = (0..elems.len()).collect();
+            for perm in super::c14::permutations_pub(&idx) {
+                let pe: Vec<AzksElement> = perm.iter().map(|&i| elems[i].clone()).collect();
+                extra.push(("permuted_input".into(), set_ops::<TC>(pe.clone(), false, pn)));
+                extra.push(("permuted_input_forced_unsorted".into(), set_ops::<TC>(pe, true, pn)));
+                rep.eval(2);
+            }
+        }
+        let mut variants: Vec<(&str, &akd::append_only_zks::verif_hooks::SetOps)> = vec![("natural", &nat), ("forced_unsorted", &uns), ("reversed_input", &rev_nat)];
+        for (n, r) in extra.iter() {
+            variants.push((n.as_str(), r));
+        }
+        for (name, r) in variants {
             if norm(&r.left) != mls || norm(&r.right) != mrs {
                 rep.violation(format!("{}/partition/{}/{}", TC::NAME, fam, name), json!({"ctx": ctx(), "left": norm(&r.left).iter().map(|b| b.show()).collect::<Vec<_>>(), "right": norm(&r.right).iter().map(|b| b.show()).collect::<Vec<_>>()}));
             }
@@ -348,14 +363,23 @@ fn set_operations<TC: ModelCfg>(args: &Args, rep: &Report) {
         let set: Vec<Bits> = (0..8).filter(|i| m & (1 << i) != 0).map(|i| u8[i].clone()).collect();
         check_set::<TC>(rep, "boundary_universe", &set);
     });
-    // (c) mixed-length sets (only the unsorted representation applies): subsets of size <= 3 of
-    // all labels of length 1..4 that are prefix-free or not
-    let mixed = all_bits_upto(4);
-    let mut msets: Vec<Vec<usize>> = vec![];
-    rec(0, mixed.len(), if args.quick() { 2 } else { 3 }, &mut vec![], &mut msets);
-    crate::explore::par_for(args.threads, &msets, |_, s| {
-        let set: Vec<Bits> = s.iter().map(|&i| mixed[i].clone()).filter(|b| b.len() > 0).collect();
-        check_set::<TC>(rep, "mixed_lengths", &set);
+    // (c) mixed-length sets (only the unsorted representation applies), prefix-free or not: subsets of size
+    // <= 3 of all labels of length 1..3 (thorough: 1..4, plus size 4 of length 1..3), in EVERY input order
+    let mut msets: Vec<Vec<Bits>> = vec![];
+    {
+        let small: Vec<Bits> = all_bits_upto(3).into_iter().filter(|b| b.len() > 0).collect();
+        let mut ix: Vec<Vec<usize>> = vec![];
+        rec(0, small.len(), if args.quick() { 3 } else { 4 }, &mut vec![], &mut ix);
+        msets.extend(ix.iter().map(|s| s.iter().map(|&i| small[i].clone()).collect::<Vec<_>>()));
+        if !args.quick() {
+            let mixed: Vec<Bits> = all_bits_upto(4).into_iter().filter(|b| b.len() > 0).collect();
+            let mut ix: Vec<Vec<usize>> = vec![];
+            rec(0, mixed.len(), 3, &mut vec![], &mut ix);
+            msets.extend(ix.iter().filter(|s| s.iter().any(|&i| mixed[i].len() == 4)).map(|s| s.iter().map(|&i| mixed[i].clone()).collect::<Vec<_>>()));
+        }
+    }
+    crate::explore::par_for(args.threads, &msets, |_, set| {
+        check_set::<TC>(rep, "mixed_lengths", set);
     });
     rep.distinct(format!("{}:sets:{}:{}", TC::NAME, sets.len(), msets.len()));
     rep.sample(json!({"cfg": TC::NAME, "family": "set_operations", "sets_5bit": sets.len(), "sets_boundary": 256, "sets_mixed": msets.len()}));
